@@ -278,6 +278,17 @@ theorem step_alive {sz : Nat → Nat} {K : Nat → Nat → Prop} {nargs : Nat} {
     · intro b j hj hkb t ht
       simp only [Instr.kills, or_false] at hkb
       exact h.dead b j hj hkb t ht
+  | shift a i =>
+    obtain ⟨hi, hk⟩ := hu a i ⟨rfl, rfl⟩
+    obtain ⟨s, hs, hl⟩ := h.slot a i hi hk
+    simp only [step, hs, noteRam_live st hl]
+    refine ⟨h.len, ?_, h.ram, h.oob, h.lenGe, ?_⟩
+    · intro b j hj hkb
+      simp only [Instr.kills, or_false] at hkb
+      exact h.slot b j hj hkb
+    · intro b j hj hkb t ht
+      simp only [Instr.kills, or_false] at hkb
+      exact h.dead b j hj hkb t ht
 
 theorem Alive.mono {sz : Nat → Nat} {K K' : Nat → Nat → Prop} {nargs : Nat} {st : St} (h : Alive sz K nargs st)
     (hk : ∀ a i, K a i ↔ K' a i) : Alive sz K' nargs st :=
